@@ -221,6 +221,12 @@ func Gen(r *rand.Rand, o GenOpts) []string {
 			es.side[id] = r.Intn(2)
 		}
 		es.pParent = 0.5 + 0.5*r.Float64()
+		if o.Mix == "C03" { // more decisions, so that forks end up below an Atropos
+			es.pParent = 0.75 + 0.25*r.Float64()
+			for id := range es.lag {
+				delete(es.lag, id)
+			}
+		}
 		return es
 	}
 	es := newEpochState()
